@@ -950,6 +950,394 @@ def r20_6(ctx):
     raise AnalysisError("no node construction found in the filters")
 
 
+# -- R20.7 ---------------------------------------------------------------------------
+
+# node classes whose own annotation the property speaks about (return and
+# variable annotations) -> the field that holds it; checked against libcst
+_ANNOTATED_FIELD = {"AnnAssign": "annotation", "FunctionDef": "returns"}
+_ANY_FILTER = "RemoveAnyNeverTransformer"
+
+
+def _k3_not(v):
+  return None if v is None else not v
+
+
+def _k3(t, atom):
+  """Kleene evaluation (True / False / None=unknown) of a test over atoms."""
+  if isinstance(t, ast.UnaryOp) and isinstance(t.op, ast.Not):
+    return _k3_not(_k3(t.operand, atom))
+  if isinstance(t, ast.BoolOp):
+    vals = [_k3(v, atom) for v in t.values]
+    if isinstance(t.op, ast.And):
+      if any(v is False for v in vals):
+        return False
+      return True if all(v is True for v in vals) else None
+    if any(v is True for v in vals):
+      return True
+    return False if all(v is False for v in vals) else None
+  return atom(t)
+
+
+def _ifexp_leaves(value):
+  if isinstance(value, ast.IfExp):
+    return [(l, [(value.test, True)] + c) for l, c in _ifexp_leaves(value.body)] + \
+        [(l, [(value.test, False)] + c) for l, c in _ifexp_leaves(value.orelse)]
+  return [(value, [])]
+
+
+def _elif_fallthrough(mod, stmt):
+  """`not T` for every terminating arm of an earlier if/elif chain (sa.flow
+  negates only the first test of such a chain)."""
+  out = []
+  node = stmt
+  while node in mod.parent:
+    par = mod.parent[node]
+    for fld in ("body", "orelse", "finalbody"):
+      blk = getattr(par, fld, None)
+      if isinstance(blk, list) and node in blk:
+        for prev in blk[:blk.index(node)]:
+          arm = prev
+          while isinstance(arm, ast.If) and flow.terminates(arm.body):
+            out.append((arm.test, False))
+            if len(arm.orelse) == 1 and isinstance(arm.orelse[0], ast.If):
+              arm = arm.orelse[0]
+            else:
+              break
+        break
+    if isinstance(par, (ast.FunctionDef, ast.AsyncFunctionDef, ast.Lambda)):
+      break
+    node = par
+  return out
+
+
+@rule("R20.7", "C20", floor=7)
+def r20_7(ctx):
+  """Where the Any/Never predicate holds, the returned node has no annotation."""
+  m = _model(ctx)
+  mod, model = m.mod, _cst(ctx)
+  methods = mod.methods(_ANY_FILTER)
+  for X, annfield in sorted(_ANNOTATED_FIELD.items()):
+    ft = model.field_type(X, annfield)
+    if ft is None or "Annotation" not in ft:
+      raise AnalysisError(f"libcst reference: {X}.{annfield} is not an Annotation")
+    fn = methods.get(f"leave_{X}")
+    construct = f"{_ANY_FILTER}:handles:{X}"
+    if fn is None:
+      ctx.bad(construct, MP, mod.cls(_ANY_FILTER).lineno,
+              f"{_ANY_FILTER} defines no leave_{X}: libcst's default keeps the "
+              f"node, so a stub {X} annotated Any/Never reaches the merge "
+              "unfiltered", {"callbacks": sorted(k for k in methods if k.startswith("leave_"))})
+      continue
+    ctx.ok(construct, MP, fn.lineno, {"callback": fn.name})
+    env = _method_env(model, mod, fn)
+    params = list(env)
+    typer = Typer(model, mod, env)
+    chains = {f"{p}.{annfield}.annotation" for p in params}
+    holders = {f"{p}.{annfield}" for p in params} | chains
+    pcalls = []
+    for c in calls_in(fn):
+      d = dotted(c.func) or ""
+      if d.startswith("self.") and d.count(".") == 1 and d[5:] in methods and \
+          _method_env(model, mod, methods[d[5:]]) is None:
+        bound = bind_args(c, methods[d[5:]], skip_self=True)
+        if len(bound) == 1 and src(next(iter(bound.values()))) in chains:
+          pcalls.append(c)
+        else:
+          raise AnalysisError(
+              f"{fn.name}: predicate call `{src(c)[:60]}` is not applied to the "
+              f"node's own annotation ({sorted(chains)[0]})")
+    preds = {dotted(c.func) for c in pcalls}
+    if len(preds) > 1:
+      raise AnalysisError(f"{fn.name}: several predicates {sorted(preds)}")
+    pcall_src = {src(c) for c in pcalls}
+    opaque = []
+
+    rd = ReachingDefs(mod, fn)
+
+    def atom(t):
+      if isinstance(t, ast.Name) and t.id not in params:
+        ds = rd.defs_of(t)     # a local holding the predicate's (or a test's) value
+        if len(ds) == 1:
+          d = next(iter(ds))
+          if d.kind == "assign" and not d.path:
+            return _k3(d.value, atom)
+      s = src(t)
+      if s in pcall_src:
+        return True            # world: the annotation is a bare Any/Never
+      if s in holders:
+        return True            # ... so the annotation exists
+      if isinstance(t, ast.Compare) and len(t.ops) == 1 and isinstance(
+          t.comparators[0], ast.Constant) and t.comparators[0].value is None \
+          and isinstance(t.ops[0], (ast.Is, ast.IsNot)):
+        if src(t.left) in holders:
+          return isinstance(t.ops[0], ast.IsNot)
+        subject = t.left
+      else:
+        subject = t
+      # a test on another field of the node that can go either way
+      if isinstance(subject, ast.Attribute) and isinstance(subject.value, ast.Name) \
+          and subject.value.id in params and subject.attr != annfield:
+        sft = model.field_type(X, subject.attr)
+        if sft is not None and "None" in sft and len(sft) > 1:
+          return None
+      opaque.append(s)
+      return None
+
+    def classify(leaf):
+      d = dotted(leaf) or ""
+      if d.endswith("RemovalSentinel.REMOVE") and \
+          mod.imports.get(d.split(".")[0], "").split(".")[0] == "libcst":
+        return "removed", "stripped"
+      if isinstance(leaf, ast.Name) and leaf.id in params:
+        return f"unchanged:{leaf.id}", "annotated"
+      if isinstance(leaf, ast.Call):
+        fd = dotted(leaf.func) or ""
+        if fd.endswith(".RemoveFromParent") and not leaf.args and \
+            mod.imports.get(fd.split(".")[0], "").split(".")[0] == "libcst":
+          return "removed", "stripped"
+        built = typer.node_class(leaf.func)
+        if built is not None:
+          ann = [f for c in model.mro_names(built)
+                 for f, a in model.classes[c]["fields"].items()
+                 if "Annotation" in model.typeset(a)]
+          given = [k for k in leaf.keywords if k.arg in ann]
+          if leaf.args or any(k.arg is None for k in leaf.keywords):
+            raise AnalysisError(f"{fn.name}: node built with positional/** arguments")
+          if not given:
+            return f"rebuilt:{built}", "stripped"
+          if all(isinstance(k.value, ast.Constant) and k.value.value is None
+                 for k in given):
+            return f"rebuilt:{built}", "stripped"
+          if all(src(k.value) in holders for k in given):
+            return f"rebuilt:{built}", "annotated"
+          raise AnalysisError(
+              f"{fn.name}: `{src(leaf)[:60]}` builds a node with a new annotation")
+        if isinstance(leaf.func, ast.Attribute) and leaf.func.attr == "with_changes" \
+            and isinstance(leaf.func.value, ast.Name) and leaf.func.value.id in params:
+          if leaf.args or any(k.arg is None for k in leaf.keywords):
+            raise AnalysisError(f"{fn.name}: with_changes(*args)")
+          given = [k for k in leaf.keywords if k.arg == annfield]
+          if not given:
+            return f"with_changes:{leaf.func.value.id}", "annotated"
+          v = given[0].value
+          if isinstance(v, ast.Constant) and v.value is None:
+            return f"with_changes:{annfield}=None", "stripped"
+          if src(v) in holders:
+            return f"with_changes:{annfield}={src(v)}", "annotated"
+          raise AnalysisError(
+              f"{fn.name}: `{src(leaf)[:60]}` installs a new annotation")
+      raise AnalysisError(f"{fn.name}: return value `{src(leaf)[:60]}` not understood")
+
+    rets = [r for r in walk_no_nested(fn) if isinstance(r, ast.Return)]
+    if not rets or flow.flow(fn, lambda u: ()).exits[-1][0] == "end":
+      raise AnalysisError(f"{fn.name}: a path falls off the end (returns None)")
+    for r in rets:
+      if r.value is None:
+        raise AnalysisError(f"{fn.name}: bare return")
+      base, seen = [], set()
+      for tp in list(flow.guards(mod.parent, r)) + _elif_fallthrough(mod, r):
+        if (id(tp[0]), tp[1]) not in seen:
+          seen.add((id(tp[0]), tp[1]))
+          base.append(tp)
+      for leaf, extra in _ifexp_leaves(r.value):
+        label, kind = classify(leaf)
+        del opaque[:]
+        vals = [(_k3(t, atom), pol) for t, pol in base + extra]
+        unreachable = any(v is not None and v != pol for v, pol in vals)
+        undecided = [1 for v, _ in vals if v is None]
+        facts = {"returns": label, "kind": kind,
+                 "path_condition": [(src(t)[:70], pol) for t, pol in base + extra],
+                 "reachable_when_any_or_never": not unreachable}
+        construct = f"{_ANY_FILTER}.leave_{X}:return:{label}"
+        if kind == "stripped" or unreachable:
+          ctx.ok(construct, MP, r.lineno, facts)
+          continue
+        if undecided and opaque:
+          raise AnalysisError(
+              f"{fn.name}: cannot tell whether `return {src(leaf)[:40]}` is "
+              f"excluded when the annotation is Any/Never (tests {opaque[:3]})")
+        ctx.bad(construct, MP, r.lineno,
+                f"leave_{X} can return the still annotated node "
+                f"(`{src(leaf)[:50]}`) although the predicate "
+                f"{sorted(preds)[0] if preds else '<none applied>'} holds for "
+                f"its annotation (path condition "
+                f"{[(src(t)[:50], pol) for t, pol in base + extra]}): the bare "
+                "Any/Never stays in the stub and is merged into the source",
+                facts)
+
+
+# -- R20.8 ---------------------------------------------------------------------------
+
+PR = "pytype/pytd/printer.py"
+
+
+def _recognised_spellings(ctx):
+  """What RemoveAnyNeverTransformer's predicate recognises:
+  {'bare': names | None, 'qualified': names | None}."""
+  m = _model(ctx)
+  mod, model = m.mod, _cst(ctx)
+  methods = mod.methods(_ANY_FILTER)
+  preds = set()
+  for name, fn in methods.items():
+    if _method_env(model, mod, fn) is None:
+      continue
+    for c in calls_in(fn):
+      d = dotted(c.func) or ""
+      if d.startswith("self.") and d[5:] in methods and \
+          _method_env(model, mod, methods[d[5:]]) is None:
+        preds.add(d[5:])
+  if len(preds) != 1:
+    raise AnalysisError(f"{_ANY_FILTER}: predicates {sorted(preds)}")
+  pred = methods[preds.pop()]
+  ps = [a.arg for a in pred.args.args[1:]]
+  if len(ps) != 1:
+    raise AnalysisError(f"{pred.name}: parameters {ps}")
+  p = ps[0]
+  typer = Typer(model, mod, {})
+  out = {"bare": None, "qualified": None, "pred": pred}
+  tested = set()
+  for c in calls_in(pred, name="isinstance"):
+    if len(c.args) == 2 and src(c.args[0]) == p:
+      ks = c.args[1].elts if isinstance(c.args[1], ast.Tuple) else [c.args[1]]
+      for k in ks:
+        tested.add(typer.node_class(k))
+  for n in ast.walk(pred):
+    if isinstance(n, ast.Compare) and len(n.ops) == 1 and \
+        isinstance(n.ops[0], (ast.In, ast.Eq)):
+      consts = try_fold(n.comparators[0], mod=mod)
+      if isinstance(consts, str):
+        consts = (consts,)
+      if not isinstance(consts, (tuple, list, set, frozenset)) or \
+          not all(isinstance(x, str) for x in consts):
+        continue
+      left = src(n.left)
+      if left == f"{p}.value" and "Name" in tested:
+        out["bare"] = frozenset(consts) | (out["bare"] or frozenset())
+      elif left == f"{p}.attr.value" and "Attribute" in tested:
+        out["qualified"] = frozenset(consts) | (out["qualified"] or frozenset())
+  if out["bare"] is None:
+    raise AnalysisError(
+        f"{pred.name}: the set of names it recognises was not understood")
+  return out
+
+
+def _spelling_kinds(mod, rd, expr, name_param, depth=0):
+  """Forms of identifier text an expression of _FromTyping can evaluate to."""
+  if depth > 8:
+    raise AnalysisError("_FromTyping: provenance too deep")
+  if isinstance(expr, ast.BoolOp):
+    out = set()
+    for v in expr.values:
+      out |= _spelling_kinds(mod, rd, v, name_param, depth + 1)
+    return out
+  if isinstance(expr, ast.IfExp):
+    return _spelling_kinds(mod, rd, expr.body, name_param, depth + 1) | \
+        _spelling_kinds(mod, rd, expr.orelse, name_param, depth + 1)
+  if isinstance(expr, ast.Name):
+    ds = rd.defs_of(expr)
+    if not ds:
+      raise AnalysisError(f"_FromTyping returns the global `{expr.id}`")
+    out = set()
+    for d in ds:
+      if d.kind == "param":
+        if d.name != name_param:
+          raise AnalysisError(f"_FromTyping returns parameter {d.name}")
+        out.add("member-name")
+      elif d.kind in ("assign", "walrus") and not d.path:
+        out |= _spelling_kinds(mod, rd, d.value, name_param, depth + 1)
+      else:
+        raise AnalysisError(f"_FromTyping: {expr.id} bound by {d.describe()}")
+    return out
+  if isinstance(expr, ast.Constant) and isinstance(expr.value, str):
+    return {"qualified" if "." in expr.value else "member-name"}
+  if isinstance(expr, ast.JoinedStr):
+    out = set()
+    dotted_const = False
+    for v in expr.values:
+      if isinstance(v, ast.Constant):
+        if "." in str(v.value):
+          dotted_const = True
+        elif not str(v.value).isidentifier():
+          raise AnalysisError(f"_FromTyping builds `{src(expr)}`")
+      elif isinstance(v, ast.FormattedValue) and v.format_spec is None:
+        out |= _spelling_kinds(mod, rd, v.value, name_param, depth + 1)
+      else:
+        raise AnalysisError(f"_FromTyping builds `{src(expr)}`")
+    if dotted_const or len(expr.values) > 1:
+      return {"qualified"} if dotted_const else out
+    return out
+  if isinstance(expr, ast.BinOp) and isinstance(expr.op, ast.Add):
+    parts = [expr.left, expr.right]
+    if any(isinstance(x, ast.Constant) and "." in str(x.value) for x in parts):
+      return {"qualified"}
+  if isinstance(expr, ast.Call) and isinstance(expr.func, ast.Attribute) and \
+      expr.func.attr == "get_alias" and src(expr.func.value) == "self._imports":
+    return {"import-alias"}
+  if isinstance(expr, ast.Constant) and expr.value is None:
+    return set()
+  raise AnalysisError(f"_FromTyping: spelling of `{src(expr)[:60]}` not understood")
+
+
+@rule("R20.8", "C20", floor=5)
+def r20_8(ctx):
+  """The stub printer's spellings of Any/Never are ones the merge filter knows."""
+  rec = _recognised_spellings(ctx)
+  pm = get_module(ctx, PR)
+  # (a) the member names the printer asks for
+  asked = []
+  for qual in ("PrintVisitor.VisitAnythingType", "PrintVisitor.VisitNothingType",
+               "PrintVisitor.VisitSignature"):
+    fn = pm.func(qual)
+    for c in calls_in(fn, name="self._FromTyping"):
+      if len(c.args) != 1 or c.keywords:
+        raise AnalysisError(f"{qual}: `{src(c)}`")
+      if qual.endswith("VisitSignature"):
+        g = flow.guards_txt(pm.parent, pm.enclosing_stmt(c))
+        if not any("nothing" in t and pol for t, pol in g):
+          continue           # not the spelling of a `nothing` return type
+      k = try_fold(c.args[0], mod=pm)
+      if not isinstance(k, str):
+        raise AnalysisError(f"{qual}: `{src(c)}` is not a constant member name")
+      asked.append((qual, c, k))
+  if not asked:
+    raise AnalysisError("printer: no Any/Never spelling found")
+  for qual, c, k in asked:
+    ctx.check(k in rec["bare"], f"{qual}:spells:{k}", PR, c.lineno,
+              f"the stub printer writes the type as typing member {k!r}, which "
+              f"{_ANY_FILTER}.{rec['pred'].name} does not recognise "
+              f"(it knows {sorted(rec['bare'])}): the annotation passes the "
+              "pre-filter and is merged",
+              {"member": k, "filter_recognises": sorted(rec["bare"])})
+  names = {k for _, _, k in asked}
+  # (b) the forms _FromTyping can give such a member
+  fn = pm.func("PrintVisitor._FromTyping")
+  ps = [a.arg for a in fn.args.args]
+  if len(ps) != 2:
+    raise AnalysisError(f"_FromTyping parameters {ps}")
+  name_param = ps[1]
+  rd = ReachingDefs(pm, fn)
+  rets = [r for r in walk_no_nested(fn) if isinstance(r, ast.Return)]
+  if not rets:
+    raise AnalysisError("_FromTyping has no return")
+  qualified_ok = rec["qualified"] is not None and names <= rec["qualified"]
+  for r in rets:
+    if r.value is None:
+      raise AnalysisError("_FromTyping: bare return")
+    kinds = _spelling_kinds(pm, rd, r.value, name_param)
+    g = flow.guards_txt(pm.parent, r)
+    collision = (f"self._NameCollision({name_param})", True) in g
+    facts = {"forms": sorted(kinds), "guards": [list(x) for x in g],
+             "filter_recognises_qualified": qualified_ok}
+    construct = "PrintVisitor._FromTyping:spelling:" + "|".join(sorted(kinds))
+    ok = "qualified" not in kinds or collision or qualified_ok
+    ctx.check(ok, construct, PR, r.lineno,
+              f"_FromTyping can spell a typing member as a qualified name "
+              f"(`{src(r.value)}`, under {g}) without a name collision forcing "
+              f"it; {_ANY_FILTER}.{rec['pred'].name} recognises only bare names "
+              f"{sorted(rec['bare'])}, so `typing.Any` / `typing.Never` pass "
+              "the merge pre-filter and are inserted", facts)
+
+
 # -- sensitivity suite ---------------------------------------------------------------
 
 _PYI_OLD = """    pyi_cst = (
@@ -1009,6 +1397,56 @@ _WRITE_BACKUP_LATE = """    with open(py_path, "w") as f:
       f.write(annotated_src)
     if backup:
       shutil.copyfile(py_path, f"{py_path}.{backup}")
+"""
+
+
+_LEAVE_FUNCDEF = """  def leave_FunctionDef(
+      self, original_node: cst.FunctionDef, updated_node: cst.FunctionDef
+  ) -> cst.CSTNode:
+    if original_node.returns and self._is_any_or_never(
+        original_node.returns.annotation
+    ):
+      return updated_node.with_changes(returns=None)
+    return original_node
+
+"""
+_LEAVE_ANN_OLD = """    if self._is_any_or_never(original_node.annotation.annotation):
+      if updated_node.value is None:
+        return cst.RemovalSentinel.REMOVE
+      return cst.Assign(
+          targets=[cst.AssignTarget(target=updated_node.target)],
+          value=updated_node.value,
+          semicolon=updated_node.semicolon,
+      )
+    return original_node
+"""
+_LEAVE_ANN_EARLY = """    if not self._is_any_or_never(updated_node.annotation.annotation):
+      return updated_node
+    elif updated_node.value is None:
+      return cst.RemovalSentinel.REMOVE
+    return cst.Assign(
+        targets=[cst.AssignTarget(target=updated_node.target)],
+        value=updated_node.value,
+        semicolon=updated_node.semicolon,
+    )
+"""
+_LEAVE_ANN_TERNARY = """    is_any = self._is_any_or_never(original_node.annotation.annotation)
+    if is_any and updated_node.value is not None:
+      return cst.Assign(
+          targets=[cst.AssignTarget(target=updated_node.target)],
+          value=updated_node.value,
+          semicolon=updated_node.semicolon,
+      )
+    return cst.RemovalSentinel.REMOVE if is_any else original_node
+"""
+_ANY_QUALIFIED = """  def _is_any_or_never(self, annotation: expression.Annotation | None):
+    if isinstance(annotation, expression.Attribute):
+      return annotation.attr.value in ("Any", "Never")
+    return (
+        annotation
+        and isinstance(annotation, expression.Name)
+        and annotation.value in ("Any", "Never")
+    )
 """
 
 
@@ -1105,4 +1543,70 @@ VARIANTS = [
        "updated_node.with_changes(returns=None)",
        "updated_node.with_changes(annotation=None)"),
     _v("twin-rebuild-guard-inverted", "R20.6", _REBUILD_OLD, _REBUILD_TWIN, "silent"),
+    # R20.7
+    {"name": "seeded-C20-m1", "rule": "R20.7", "patch": "seeded/C20-m1/patch.diff",
+     "expect": "fire"},
+    _v("functiondef-filter-test-inverted", "R20.7",
+       "    if original_node.returns and self._is_any_or_never(\n"
+       "        original_node.returns.annotation\n    ):",
+       "    if original_node.returns and not self._is_any_or_never(\n"
+       "        original_node.returns.annotation\n    ):"),
+    _v("annassign-any-kept-when-target-is-attribute", "R20.7",
+       "    if self._is_any_or_never(original_node.annotation.annotation):\n"
+       "      if updated_node.value is None:",
+       "    if self._is_any_or_never(original_node.annotation.annotation):\n"
+       "      if updated_node.equal is not cst.MaybeSentinel.DEFAULT:\n"
+       "        return updated_node\n"
+       "      if updated_node.value is None:", "error"),
+    _v("functiondef-returns-put-back", "R20.7",
+       "      return updated_node.with_changes(returns=None)",
+       "      return updated_node.with_changes(returns=original_node.returns)"),
+    _v("functiondef-callback-removed", "R20.7", _LEAVE_FUNCDEF, ""),
+    _v("twin-annassign-early-exit", "R20.7", _LEAVE_ANN_OLD, _LEAVE_ANN_EARLY, "silent"),
+    _v("twin-annassign-conditional-expression", "R20.7", _LEAVE_ANN_OLD,
+       _LEAVE_ANN_TERNARY, "silent"),
+    _v("twin-functiondef-returns-updated-node", "R20.7",
+       "      return updated_node.with_changes(returns=None)\n    return original_node",
+       "      return updated_node.with_changes(returns=None)\n    return updated_node",
+       "silent"),
+    # R20.8
+    {"name": "seeded-C20-m2", "rule": "R20.8", "patch": "seeded/C20-m2/patch.diff",
+     "expect": "fire"},
+    {"name": "printer-always-qualifies-typing-members", "rule": "R20.8", "file": PR,
+     "expect": "fire",
+     "old": "    alias = self._imports.get_alias(full_name) or name\n"
+            "    self._imports.add(full_name, alias)\n    return alias\n",
+     "new": "    alias = self._imports.get_alias(full_name)\n"
+            "    if alias:\n      return alias\n"
+            "    self._imports.add(\"typing\")\n    return \"typing.\" + name\n"},
+    _v("filter-forgets-never", "R20.8",
+       '        and annotation.value in ("Any", "Never")\n',
+       '        and annotation.value in ("Any",)\n'),
+    {"name": "printer-spells-nothing-as-NoReturn", "rule": "R20.8", "file": PR,
+     "expect": "fire",
+     "old": '      return_type = self._FromTyping("Never")',
+     "new": '      return_type = self._FromTyping("NoReturn")'},
+    {"name": "twin-printer-alias-lookup-unfolded", "rule": "R20.8", "file": PR,
+     "expect": "silent",
+     "old": "    alias = self._imports.get_alias(full_name) or name\n",
+     "new": "    alias = self._imports.get_alias(full_name)\n"
+            "    if not alias:\n      alias = name\n"},
+    {"name": "twin-printer-collision-arm-inlined", "rule": "R20.8", "file": PR,
+     "expect": "silent",
+     "old": "    full_name = f\"typing.{name}\"\n"
+            "    if self._NameCollision(name):\n"
+            "      self._imports.add(\"typing\")\n      return full_name\n",
+     "new": "    full_name = \"typing.\" + name\n"
+            "    if not self._NameCollision(name):\n"
+            "      pass\n"
+            "    else:\n"
+            "      self._imports.add(\"typing\")\n      return f\"typing.{name}\"\n"},
+    {"name": "twin-qualified-spelling-with-filter-support", "rule": "R20.8",
+     "expect": "silent", "edits": [
+         (PR, "    alias = self._imports.get_alias(full_name) or name\n",
+          "    alias = self._imports.get_alias(full_name)\n"
+          "    if not alias and self._imports.get_alias(\"typing\"):\n"
+          "      return \"typing.\" + name\n"
+          "    alias = alias or name\n"),
+         (MP, _ANY_OLD, _ANY_QUALIFIED)]},
 ]
